@@ -91,6 +91,11 @@ func (c *lruSessionCache) Put(sessionKey string, cs *SessionState) {
 		return
 	}
 
+	if cs == nil {
+		// 删除一个不存在的会话：无需任何操作（不得插入空条目，也不得淘汰其他会话）
+		return
+	}
+
 	if c.q.Len() < c.capacity {
 		entry := &lruSessionCacheEntry{sessionKey, cs}
 		c.m[sessionKey] = c.q.PushFront(entry)
